@@ -162,13 +162,62 @@ fn malformed_corpus() -> Vec<(&'static str, Vec<u8>)> {
     v
 }
 
+/// a text with the characters the JSON printer treats specially
+fn json_fuzz_text(rng: &mut Rng) -> String {
+    let alpha: [char; 24] = ['a', 'k', '"', '\\', '/', '\n', '\r', '\t', '\u{8}', '\u{c}', '\u{0}', '\u{1}', '\u{1f}', '\u{7f}', '\u{80}', 'é', 'ক', '\u{9cd}', '\u{200c}', '\u{d7ff}', '\u{e000}', '\u{ffff}', '😀', '\u{10ffff}'];
+    let n = rng.below(6);
+    (0..n).map(|_| *rng.pick(&alpha)).collect()
+}
+
+/// a document near the border between what serde_json accepts as a map of strings and what it rejects
+fn json_fuzz_doc(rng: &mut Rng, corpus: &[(&'static str, Vec<u8>)]) -> Vec<u8> {
+    let frag: [&[u8]; 40] = [b"{", b"}", b"[", b"]", b",", b":", b"\"", b"\\", b" ", b"\t", b"\n", b"\r", b"\x0c", b"\x00", b"1", b"-", b"e", b"u", b"null", b"true",
+        b"\\n", b"\\/", b"\\b", b"\\f", b"\\x", b"\\u0041", b"\\u00e9", b"\\u09AB", b"\\ud83d\\ude00", b"\\ud83d", b"\\ude00", b"\\ud83d\\u0041", b"\\u12", b"\\u12G4", b"\\uDBFF\\uDFFF",
+        b"\xc3\xa9", b"\xe0\xa6\x95", b"\xf0\x9f\x98\x80", b"\xed\xa0\x80", b"\xc0\xaf"];
+    let mut doc: Vec<u8> = match rng.below(8) {
+        0 => { let (_, d) = rng.pick(corpus); if d.len() > 4096 { b"{}".to_vec() } else { d.clone() } }
+        1 => { // free soup of fragments
+            let mut d: Vec<u8> = vec![]; for _ in 0..rng.below(12) { let f: &[u8] = *rng.pick(&frag); d.extend_from_slice(f); } d }
+        _ => { // a valid map of strings, printed with optional whitespace
+            let ws: [&[u8]; 5] = [b"", b"", b" ", b"\n", b"\t\r "];
+            let mut d: Vec<u8> = vec![]; let w: &[u8] = *rng.pick(&ws); d.extend_from_slice(w); d.push(b'{');
+            let n = rng.below(4);
+            for i in 0..n {
+                if i > 0 { d.push(b','); }
+                for part in 0..2 {
+                    { let w: &[u8] = *rng.pick(&ws); d.extend_from_slice(w); }
+                    let txt = json_fuzz_text(rng);
+                    if rng.chance(70) { d.extend_from_slice(serde_json::to_string(&txt).unwrap().as_bytes()); }
+                    else { d.push(b'"'); for _ in 0..rng.below(4) { let f: &[u8] = *rng.pick(&frag[20..]); d.extend_from_slice(f); if rng.chance(50) { d.push(b'a'); } } d.push(b'"'); }
+                    { let w: &[u8] = *rng.pick(&ws); d.extend_from_slice(w); }
+                    if part == 0 { d.push(b':'); }
+                }
+            }
+            d.push(b'}'); { let w: &[u8] = *rng.pick(&ws); d.extend_from_slice(w); } d }
+    };
+    // 0–2 mutations
+    for _ in 0..[0, 0, 1, 1, 1, 2][rng.below(6)] {
+        match rng.below(6) {
+            0 => { let k = rng.below(doc.len() + 1); doc.truncate(k); }
+            1 => { if !doc.is_empty() { let k = rng.below(doc.len()); doc.remove(k); } }
+            2 => { let k = rng.below(doc.len() + 1); let f: &[u8] = *rng.pick(&frag); let tail = doc.split_off(k); doc.extend_from_slice(f); doc.extend(tail); }
+            3 => { if !doc.is_empty() { let k = rng.below(doc.len()); doc[k] = (rng.next() & 0xff) as u8; } }
+            4 => { if !doc.is_empty() { let k = rng.below(doc.len()); doc[k] ^= 1 << rng.below(8); } }
+            _ => { // a string value replaced by another JSON type
+                let r: [&[u8]; 6] = [b"1", b"null", b"true", b"[\"x\"]", b"{\"x\":\"y\"}", b"1.5e3"];
+                if let Some(p) = doc.iter().rposition(|b| *b == b':') { let q = doc[p..].iter().position(|b| *b == b',' || *b == b'}').map(|x| p + x).unwrap_or(doc.len()); let tail = doc.split_off(q); doc.truncate(p + 1); { let f: &[u8] = *rng.pick(&r); doc.extend_from_slice(f); } doc.extend(tail); } }
+        }
+    }
+    doc
+}
+
 pub fn run_c10(env: &Env) -> Report {
     let pools = WordPools::new(&env.data);
     let seed = env.a.seed;
     let corpus = malformed_corpus();
     // units: crash-point enumeration over engine-written stores; malformed corpus; directory faults
     let nstores = if env.quick() { 16 } else { 64 };   // thorough: every byte prefix of 64 engine-written stores (≈ 4 min)
-    let nunits = nstores + 16 + 8;
+    let nunits = nstores + 16 + 8 + 8;   // … + 8 units of JSON documents for the tie of the Lean JSON fragment (no engine involved)
     let reps = par_map(nunits, |ui| {
         let mut rep = Report::new("c10");
         let mut rng = Rng::new(seed.wrapping_mul(25214903917) ^ (ui as u64) << 10);
@@ -271,6 +320,26 @@ pub fn run_c10(env: &Env) -> Report {
                     rep.count(if readable { "wrong-shape-or-empty-strings-readable" } else { "malformed-unreadable" });
                     let _ = std::fs::remove_dir_all(&xp);
                 }
+            }
+        } else if ui >= nstores + 16 + 8 {
+            // (d) tie of Model/Json to serde_json: documents near the valid/invalid border, each read by serde_json here and
+            //     by `Riti.Json.parseBytes` in the driver; maps with awkward characters written by serde_json and re-printed
+            //     by `Riti.Json.printBytes`
+            t.line(&format!("case c10-{}-json", ui));
+            let n = if env.quick() { 500 } else { 25000 };
+            for _ in 0..n {
+                let doc = json_fuzz_doc(&mut rng, &corpus);
+                let ok = serde_json::from_slice::<HashMap<String, String>>(&doc).is_ok();
+                t.json_read(&doc);
+                rep.count(if ok { "json-doc-accepted" } else { "json-doc-rejected" });
+                rep.eval(Some(&format!("json|{:x}", riti_harness::trace::fxhash_bytes(&doc))));
+            }
+            for _ in 0..n / 5 {
+                let mut m: HashMap<String, String> = HashMap::new();
+                for _ in 0..rng.below(4) { m.insert(json_fuzz_text(&mut rng), json_fuzz_text(&mut rng)); }
+                let b = serde_json::to_string(&m).unwrap().into_bytes();
+                t.json_written(&b); t.json_read(&b);
+                rep.count("json-doc-written");
             }
         } else {
             // (c) directory faults: missing, replaced by a regular file, read-only
